@@ -9,7 +9,7 @@ HEADER = "From Coq Require Import ZArith List.\nFrom TV Require Import Common.Ha
 CASE_T = "C07.Corr.case"
 PROPS = ["C07/Props.v"]
 CLAUSE = {1: "outcome-class", 2: "contents", 3: "failing-op-effect", 4: "several-events", 5: "missing-event",
-          6: "not-silent", 7: "delta-law", 8: "copy"}
+          6: "not-silent", 7: "delta-law", 8: "copy", 9: "observer-event"}
 
 
 def outcome(o):
@@ -40,7 +40,8 @@ def to_term(case, obs):
     for op, ob in zip(case["ops"], obs):
         h.append((op_term(op, ob),
                   C("mkObs", outcome(ob["out"]), list(ob["after"]), [(e[0], e[1]) for e in ob["events"]],
-                    opt(ob["ret"]), opt(ob["cv"]))))
+                    opt(ob["ret"]), opt(ob["cv"]),
+                    opt(None if ob.get("oev") is None else [(e[0], e[1]) for e in ob["oev"]]))))
     return (C(case["vk"]), list(case["init"]), h)
 
 
